@@ -53,6 +53,10 @@ def decide(name, assumptions, neg, timeout_s=600, prefer='auto', want=None):
     """Decide satisfiability of  /\\assumptions /\\ neg.  -> dict(result, time, backend, size, model)
     model: {var name: python value} for the variables of the query (on sat)."""
     t0 = time.time()
+    if TIER == 'thorough':
+        # the thorough tier has an hour per unit: a query that takes 4 minutes alone (and longer beside 15 other workers)
+        # must not come back "unknown" because of a timeout chosen for the quick tier
+        timeout_s = max(timeout_s, 1500)
     out = dict(name=name, result=None, time=0.0, backend=None, size=None, model=None, trivial=False)
     if g_false(neg):
         out.update(result='unsat', backend='trivial', trivial=True)
